@@ -7,7 +7,7 @@ SPEC = dict(
     units=TOK + ["src/acl/Ip.cc", "src/ip/Address.cc", "lib/Splay.cc"],
     entries=dict(
         quick=[
-        ] + ([dict(name="c42_zero_mask", bounds="'::/0' with probe fc00::PPQQ (KNOWN-FINDING candidate; only with C42_ZERO_MASK=1)", reach=["match"])] if _os.environ.get("C42_ZERO_MASK") else []) + [
+            dict(name="c42_zero_mask", bounds="'::/0' with a probe of either family (10.0.P.Q or fc00::PPQQ, 16 symbolic bits)", reach=["match"]),
             dict(name="c42_v4_lists", bounds="1..2 IPv4 tokens, any kinds, any order/overlap; IPv4 probe; " + _TOKENS, reach=["match", "nomatch"], sample_every=31),
             dict(name="c42_v6_lists", bounds="1..2 IPv6 tokens, any kinds, any order/overlap; IPv6 probe", reach=["match", "nomatch"], sample_every=31),
             dict(name="c42_mixed_pair", bounds="one IPv4 range and one IPv6 range in either order; probe of either family", reach=["match", "nomatch"], sample_every=31),
@@ -15,6 +15,7 @@ SPEC = dict(
             dict(name="c42_families", bounds="one of all/ipv4/ipv6 alone, before or after one ordinary token (either family, any kind); probe of either family", reach=["match", "nomatch"], sample_every=13),
         ],
         thorough=[
+            dict(name="c42_zero_mask", bounds="as quick", reach=["match"]),
             dict(name="c42_v4_lists", bounds="as quick", reach=["match", "nomatch"], sample_every=31),
             dict(name="c42_v6_lists", bounds="as quick", reach=["match", "nomatch"], sample_every=31),
             dict(name="c42_v6_ranges3", bounds="three IPv6 range tokens 'fc00::XY-fc00::ZW' (XY<=ZW), any order/overlap/adjacency (chained merges); IPv6 probe", reach=["match", "nomatch"], sample_every=211),
@@ -27,5 +28,5 @@ SPEC = dict(
     stubs=["ConfigParser::strtokFile hands out the harness's tokens", "self_destruct() throws (the real one exits): configuration rejected",
            "getaddrinfo/freeaddrinfo: numeric-only model in the harness (dotted-quad IPv4, hex-group IPv6 with '::'), 3 results per address when the socket type is open (as glibc); native replay uses the real libc",
            "Acl::Node constructor/destructor/default virtuals stubbed (acl/Acl.cc, the ACL registry, is not linked)", "Ip::EnableIpv6 = IPV6_ON", "libc sscanf model (%[set], %d, %c, %s)", "debugs() disabled"],
-    outside="addresses outside the two prefixes; more than 3 tokens; host names; dotted netmasks; ranges with a mask; masks shorter than /26 (v4) or /120 (v6), in particular /0 (KNOWN-FINDING candidate: '::/0' is parsed as the single host '::', see c42_zero_mask); tokens with host bits below the mask; reversed ranges; IPv4-mapped IPv6 text; the 0/0-style legacy spellings of 'all'",
+    outside="addresses outside the two prefixes; more than 3 tokens; host names; dotted netmasks; ranges with a mask; masks strictly between /0 and /26 (v4) or /120 (v6); tokens with host bits below the mask; reversed ranges; IPv4-mapped IPv6 text; the 0/0-style legacy spellings of 'all'",
 )
